@@ -235,7 +235,7 @@ class Uploader:
         except c16_http.Timeout:
             status = 0
         except Exception as e:
-            status = -1
+            status = c16_http.CLIENT_ERROR
             c16_http._LAST_EXC.append((type(e).__name__, "client", str(e)[:160]))
         finally:
             signal.setitimer(signal.ITIMER_REAL, 0)
@@ -360,7 +360,7 @@ class Uploader:
 def endpoint_violation(step: dict) -> str | None:
     if step["status"] == 0:
         return f"{step['step']}: no answer within {c16_http.TIME_LIMIT:.0f} s"
-    if step["status"] == -1:
+    if step["status"] == c16_http.CLIENT_ERROR:
         return f"{step['step']}: exception outside the application's error handling: {step['exc']}"
     if step["status"] >= 500:
         return f"{step['step']}: status {step['status']}"
